@@ -174,7 +174,7 @@ Proof. rewrite nfLen_nfData. apply zlen_nonneg. Qed.
 Lemma ssmax_pos : 0 <= ssMaxPacketBufferSize.
 Proof. unfold ssMaxPacketBufferSize. lia. Qed.
 
-Lemma fgood_trunc Wd f n : fgood Wd f -> fgood Wd (mkF (f_off f) (zfirstn n (f_data f)) (f_fin f)).
+Lemma fgood_trunc Wd f n b' : fgood Wd f -> fgood Wd (mkF (f_off f) (zfirstn n (f_data f)) b').
 Proof.
   destruct f as [o d b]. intros [H1 H2]. cbn in *. split.
   - eapply good_firstn; eauto.
@@ -225,10 +225,9 @@ Proof.
   - apply Inv_core with s; auto.
 Qed.
 
-Lemma do_rel_Inv s : Inv s -> late (fst (do_rel s)) = false -> Inv (fst (do_rel s)).
+Lemma do_rel_Inv s : Inv s -> Inv (fst (do_rel s)).
 Proof.
-  intros HI. unfold do_rel. cbn [fst]. ssimp. intros HL.
-  apply orb_false_iff in HL. destruct HL as [_ HR].
+  intros HI. unfold do_rel. destruct (isSome (resetErr s)) eqn:HR; [exact HI|]. cbn [fst].
   assert (ER : resetErr s = None) by (destruct (resetErr s); [discriminate|reflexivity]).
   pose proof (nfLen_nonneg s) as Hn.
   destruct HI as [H1 H2 H3 H4 H5 H6 H7 H0 H8 H9 H10].
@@ -300,9 +299,10 @@ Qed.
 Lemma write_iter_Inv first s : Inv s -> Inv (fst (write_iter first s)).
 Proof.
   intros HI. unfold write_iter.
-  destruct (canBuffer s && (0 <? zlen (dataForWriting s))) eqn:EC.
+  destruct (negb (isSome (resetErr s)) && negb (shutdown s) && canBuffer s && (0 <? zlen (dataForWriting s))) eqn:EC.
   - (* the rest of the data is copied into nextFrame *)
-    apply andb_prop in EC. destruct EC as [EC1 EC2]. unfold canBuffer in EC1.
+    apply andb_prop in EC. destruct EC as [EC EC2]. apply andb_prop in EC. destruct EC as [_ EC1].
+    unfold canBuffer in EC1.
     apply Z.leb_le in EC1. apply Z.ltb_lt in EC2.
     destruct HI as [H1 H2 H3 H4 H5 H6 H7 H0 H8 H9 H10]. cbn [fst].
     assert (ED : nfData (set_nextFrame (match nextFrame s with
@@ -461,7 +461,7 @@ Lemma finish_new_fields mdl r more s1 f0 :
   emittedNew s' = emittedNew s1 ++ [f] /\ resetErr s' = resetErr s1 /\ shutdown s' = shutdown s1 /\
   reliableSize s' = reliableSize s1 /\ supportsRSA s' = supportsRSA s1 /\ writing s' = writing s1 /\
   late s' = late s1 /\
-  (fin = true -> finishedWriting s1 = true /\ dataForWriting s1 = [] /\ nextFrame s1 = None /\ finSent s1 = false) /\
+  (fin = true -> finishedWriting s1 = true /\ dataForWriting s1 = [] /\ nextFrame s1 = None /\ finSent s1 = false /\ resetErr s1 = None) /\
   finishedWriting s' = finishedWriting s1 /\ (finSent s' = finSent s1 || fin) /\
   acked s' = acked s1 /\ outReset s' = outReset s1 /\ queuedReset s' = queuedReset s1 /\
   numOut s' = numOut s1 + 1 /\ panicked s' = panicked s1.
@@ -489,19 +489,20 @@ Proof.
   destruct p3 as [s3 blocked]. cbn [fst] in E3. destruct E3 as (E3 & E3l & E3a & E3b & E3c & E3d & E3e & E3f & E3g).
   unfold core in E3. inversion E3 as [[A1 A2 A3 A4 A5 A6 A7 A8 A9 A10 A11 A12 A13]]. clear E3.
   destruct E2 as (B1 & B2 & B3 & B4 & B5 & B6 & B7 & B8 & B9 & B10 & B11 & B12 & B13 & B14 & B15 & B16 & B17 & B18 & B19 & B20 & B21).
-  set (fin := finishedWriting s3 && isNil (dataForWriting s3) && negb (isSome (nextFrame s3)) && negb (finSent s3)).
+  set (fin := finishedWriting s3 && isNil (dataForWriting s3) && negb (isSome (nextFrame s3)) && negb (finSent s3) && negb (isSome (resetErr s3))).
   exists fin. cbn [fst]. unfold emit.
-  assert (Hfin : fin = true -> finishedWriting s1 = true /\ dataForWriting s1 = [] /\ nextFrame s1 = None /\ finSent s1 = false).
-  { subst fin. intros H. apply andb_prop in H. destruct H as [H H4]. apply andb_prop in H. destruct H as [H H3].
+  assert (Hfin : fin = true -> finishedWriting s1 = true /\ dataForWriting s1 = [] /\ nextFrame s1 = None /\ finSent s1 = false /\ resetErr s1 = None).
+  { subst fin. intros H. apply andb_prop in H. destruct H as [H H5]. apply andb_prop in H. destruct H as [H H4]. apply andb_prop in H. destruct H as [H H3].
     apply andb_prop in H. destruct H as [H1 H2].
-    rewrite E3a, B15 in H1. rewrite A12, B3 in H2. rewrite A2, B2 in H3. rewrite E3b, B16 in H4.
+    rewrite E3a, B15 in H1. rewrite A12, B3 in H2. rewrite A2, B2 in H3. rewrite E3b, B16 in H4. rewrite A8, B9 in H5.
     repeat split; auto.
     - now apply isNil_true.
     - destruct (nextFrame s1); [discriminate|reflexivity].
-    - destruct (finSent s1); [discriminate|reflexivity]. }
+    - destruct (finSent s1); [discriminate|reflexivity].
+    - destruct (resetErr s1); [discriminate|reflexivity]. }
   destruct fin; ssimp; repeat split; try congruence; try lia; auto.
   all: try (rewrite E3b, B16; destruct (finSent s1); reflexivity).
-  all: destruct (Hfin eq_refl) as (? & ? & ? & ?); assumption.
+  all: destruct (Hfin eq_refl) as (? & ? & ? & ? & ?); assumption.
 Qed.
 
 Definition same_rest (s1 s : state) : Prop :=
@@ -728,7 +729,7 @@ Proof.
   - unfold do_rlost. destruct (nth_error _ _); [|exact H]. destruct (negb _); exact H.
   - unfold do_win. destruct (_ >? _); exact H.
   - unfold do_cwin. destruct (_ >? _); exact H.
-  - unfold do_rel. ssimp. rewrite H. reflexivity.
+  - unfold do_rel. destruct (isSome (resetErr s)); exact H.
   - unfold do_enable. ssimp. rewrite H. reflexivity.
   - unfold do_shutdown. destruct (_ && _); exact H.
 Qed.
